@@ -31,7 +31,7 @@ class Unit:
     def __init__(self, name, tu, harness, enforce=None, replace=(), shape="U", props=(), loops=False,
                  unwind=None, unwindset=(), defs=(), covers=0, timeout=(300, 1800), mem=16, tiers=("quick", "thorough"),
                  bound=None, tdefs=None, funcs=None, expect_loop_obligations=0, rec=False, extra_cbmc=(), note="",
-                 safety_props=None, no_contract=False, nondet_static=False, tunwind=None, checks_off=(), bounded_loops=(), object_bits=8, slice_formula=True, ignore_desc=()):
+                 safety_props=None, no_contract=False, nondet_static=False, tunwind=None, checks_off=(), bounded_loops=(), object_bits=8, slice_formula=True, ignore_desc=(), sat="cadical"):
         self.name = name; self.tu = tu; self.harness = harness; self.enforce = enforce
         self.replace = list(replace); self.shape = shape; self.props = list(props); self.loops = loops
         self.unwind = unwind; self.unwindset = list(unwindset); self.defs = list(defs); self.covers = covers
@@ -48,6 +48,7 @@ class Unit:
         self.bounded_loops = list(bounded_loops)  # S/B units: regexes of unwinding assertions that ARE the stated bound
         self.object_bits = object_bits; self.slice_formula = slice_formula
         self.ignore_desc = list(ignore_desc)    # obligation classes that are not claims here (reason in `note`); listed in the evidence
+        self.sat = sat                    # SAT back end: cadical by default; minisat2 where cadical's final (UNSAT) query exhausts memory (DESIGN 6)
         self.entry = "h_" + name
 
 def make_scratch():
@@ -62,8 +63,39 @@ def make_scratch():
 def _norm(text, scratch):
     return text.replace(scratch, "<SCRATCH>")
 
+_MACRO_TAGS = {}
+def _macro_tags():
+    """union of the /*@..*/ tags inside each multi-clause macro of specs/*.h (a clause that comes from a macro is reported at the
+    line where the macro is USED, so its tags are those of the macro body)"""
+    if _MACRO_TAGS:
+        return _MACRO_TAGS
+    d = os.path.join(VERIF, "specs")
+    for fn in sorted(os.listdir(d)):
+        if not fn.endswith(".h"):
+            continue
+        lines = open(os.path.join(d, fn)).read().split("\n")
+        i = 0
+        while i < len(lines):
+            m = re.match(r"#define\s+([A-Za-z_][A-Za-z0-9_]*)", lines[i])
+            if m:
+                body = [lines[i]]
+                while lines[i].rstrip().endswith("\\") and i + 1 < len(lines):
+                    i += 1
+                    body.append(lines[i])
+                tags = []
+                for b in body:
+                    for t in re.findall(r"/\*@([^*]*)\*/", b):
+                        for x in t.split():
+                            if x not in tags:
+                                tags.append(x)
+                if tags:
+                    _MACRO_TAGS[m.group(1)] = tags
+            i += 1
+    _MACRO_TAGS.setdefault("", [])
+    return _MACRO_TAGS
+
 def tag_of_line(path, line, _cache={}):
-    """property tags written as /*@C01 C03*/ on the source line of an ensures clause"""
+    """property tags written as /*@C01 C03*/ on the source line of an ensures clause (or inside the macro used on that line)"""
     if path not in _cache:
         try:
             _cache[path] = open(path).read().split("\n")
@@ -74,6 +106,9 @@ def tag_of_line(path, line, _cache={}):
         m = re.search(r"/\*@([^*]*)\*/", lines[line - 1])
         if m:
             return m.group(1).split()
+        m = re.match(r"\s*([A-Za-z_][A-Za-z0-9_]*)\b", lines[line - 1])
+        if m and m.group(1) in _macro_tags() and not lines[line - 1].lstrip().startswith("#"):
+            return list(_macro_tags()[m.group(1)])
     return None
 
 def run_unit(u, scratch, tier="quick", use_cache=True, keep=False):
@@ -81,7 +116,7 @@ def run_unit(u, scratch, tier="quick", use_cache=True, keep=False):
     t0 = time.time()
     work = tempfile.mkdtemp(prefix="vfu_", dir=scratch)
     res = {"unit": u.name, "shape": u.shape, "tier": tier, "status": "undecided", "reason": "", "obligations": [],
-           "wall_s": 0.0, "solver_s": 0.0, "backend": "cbmc 6.11.0 / SAT cadical (--object-bits %d%s)" % (u.object_bits, " --slice-formula" if u.slice_formula else ""), "cached": False, "bound": u.bound,
+           "wall_s": 0.0, "solver_s": 0.0, "backend": "cbmc 6.11.0 / SAT %s (--object-bits %d%s)" % (u.sat, u.object_bits, " --slice-formula" if u.slice_formula else ""), "cached": False, "bound": u.bound,
            "functions": u.funcs, "covers": []}
     defs = BASE_DEFS + ["-DVF_TIER_" + tier.upper()] + (["-DVF_ENF_" + u.enforce] if u.enforce else []) + u.defs + u.tdefs.get(tier, [])
     harness = os.path.join(VERIF, u.harness)
@@ -93,7 +128,7 @@ def run_unit(u, scratch, tier="quick", use_cache=True, keep=False):
     if rc != 0:
         res["reason"] = "preprocess failed: " + err[-2000:]
         return _finish(res, t0, work, keep)
-    flags = json.dumps([u.entry, u.enforce, u.replace, u.loops, unwind, u.unwindset, u.rec, u.extra_cbmc, CBMC_CHECKS, u.checks_off, u.object_bits, u.slice_formula, u.ignore_desc, u.no_contract, u.nondet_static, u.covers])
+    flags = json.dumps([u.entry, u.enforce, u.replace, u.loops, unwind, u.unwindset, u.rec, u.extra_cbmc, CBMC_CHECKS, u.checks_off] + ([u.sat] if u.sat != "cadical" else []) + [u.object_bits, u.slice_formula, u.ignore_desc, u.no_contract, u.nondet_static, u.covers])
     pre_n = re.sub(r'^# \d+ "[^"]*".*$', "", _norm(pre, scratch), flags=re.M)
     key = hashlib.sha256((pre_n + flags).encode()).hexdigest()
     cpath = os.path.join(CACHE, key + ".json")
@@ -115,7 +150,7 @@ def run_unit(u, scratch, tier="quick", use_cache=True, keep=False):
     if rc != 0:
         res["reason"] = "goto-cc failed: " + (err + out)[-3000:]
         return _finish(res, t0, work, keep)
-    rc, out, err, _ = sh(["goto-instrument", "--no-malloc-may-fail", "--add-library", gb0, gb1], 300)
+    rc, out, err, _ = sh(["goto-instrument", "--no-malloc-may-fail", "--add-library", "--nondet-volatile", gb0, gb1], 300)
     if rc != 0:
         res["reason"] = "add-library failed: " + (err + out)[-3000:]
         return _finish(res, t0, work, keep)
@@ -131,7 +166,10 @@ def run_unit(u, scratch, tier="quick", use_cache=True, keep=False):
         cmd = ["goto-instrument", "--dfcc", u.entry]
         if u.enforce and not u.no_contract:
             cmd += ["--enforce-contract-rec" if u.rec else "--enforce-contract", u.enforce]
-        for r in u.replace:
+        reps = list(u.replace)
+        if u.tu in ("cjson", "both") and u.enforce and not u.no_contract and u.enforce != "cJSON_GetErrorPtr" and not any(r.startswith("cJSON_GetErrorPtr") for r in reps):
+            reps.append("cJSON_GetErrorPtr/cJSON_GetErrorPtr_any")   # C20 interference model (specs/contracts_cjson.h)
+        for r in reps:
             cmd += ["--replace-call-with-contract", r]
         if u.loops:
             cmd += ["--apply-loop-contracts"]
@@ -143,7 +181,7 @@ def run_unit(u, scratch, tier="quick", use_cache=True, keep=False):
             return _finish(res, t0, work, keep)
         cur = gb2
     # ---- solve
-    cmd = ["cbmc", cur, "--sat-solver", "cadical", "--object-bits", str(u.object_bits)] + (["--slice-formula"] if u.slice_formula else []) + [c for c in CBMC_CHECKS if c not in u.checks_off] + ["--json-ui", "--unwinding-assertions", "--drop-unused-functions"]
+    cmd = ["cbmc", cur, "--sat-solver", u.sat, "--object-bits", str(u.object_bits)] + (["--slice-formula"] if u.slice_formula else []) + [c for c in CBMC_CHECKS if c not in u.checks_off] + ["--json-ui", "--unwinding-assertions", "--drop-unused-functions"]
     if unwind is not None:
         cmd += ["--unwind", str(unwind)]
     # loops of the contracts library iterate over the assigns/frees targets: give them their own generous bound
@@ -165,6 +203,8 @@ def run_unit(u, scratch, tier="quick", use_cache=True, keep=False):
     tcmd = [c for c in cmd if c != "--json-ui"]
     rc, out, err, wall = sh(tcmd, timeout, mem_gb=u.mem)
     res["solver_s"] = round(wall, 2)
+    if keep:
+        open(os.path.join(work, "main.out"), "w").write(out + "\n==== stderr ====\n" + err)
     if rc == -9:
         res["reason"] = "timeout after %ds" % timeout
         return _finish(res, t0, work, keep)
@@ -241,8 +281,11 @@ def run_unit(u, scratch, tier="quick", use_cache=True, keep=False):
         o.pop("trace", None)
     sat = [c for c in res["covers"] if c["status"] == "satisfied"]
     if len(cov) != u.covers or len(sat) != len(cov):
-        res["status"] = "undecided"
         res["reason"] = "vacuity guard: %d/%d cover goals reachable, %d expected" % (len(sat), len(cov), u.covers)
+        # a unit with failed obligations is not vacuous: the failures stand (a changed function may well make a cover goal unreachable);
+        # without any failure an unreachable goal means the unit proved nothing about that path -> undecided
+        if not [o for o in res["obligations"] if o["status"] == "FAILURE"]:
+            res["status"] = "undecided"
     if res["status"] == "done":
         os.makedirs(CACHE, exist_ok=True)
         res["wall_s"] = round(time.time() - t0, 2)
